@@ -660,7 +660,16 @@ class Interp:
                         obj.props.pop(st.name, None)
                 elif isinstance(st, ast.AnnAssign) and isinstance(st.target, ast.Name) and st.value is not None:
                     try:
-                        obj.fields[st.target.id] = self.ev(st.value, {}, cmod)
+                        v = st.value
+                        if isinstance(v, ast.Call) and norm(v.func) in ("field", "dataclasses.field"):
+                            # dataclass field: a fresh default per instance
+                            kw = {k.arg: k.value for k in v.keywords}
+                            if "default_factory" in kw:
+                                obj.fields[st.target.id] = self.call(ast.Call(func=kw["default_factory"], args=[], keywords=[]), {}, cmod)
+                            elif "default" in kw:
+                                obj.fields[st.target.id] = self.ev(kw["default"], {}, cmod)
+                        else:
+                            obj.fields[st.target.id] = self.ev(v, {}, cmod)
                     except Undecided:
                         pass
         if any(d in obj.methods for d in _PROTOCOL_DUNDERS):
@@ -789,6 +798,17 @@ class Interp:
             env[target.id] = value
         elif isinstance(target, (ast.Tuple, ast.List)):
             vals = _guard(list, value)
+            stars = [i for i, t in enumerate(target.elts) if isinstance(t, ast.Starred)]
+            if len(stars) == 1:
+                i, after = stars[0], len(target.elts) - stars[0] - 1
+                if len(vals) < len(target.elts) - 1:
+                    raise Raises("ValueError", "not enough values to unpack")
+                for t, v in zip(target.elts[:i], vals[:i]):
+                    self._bind(t, v, env)
+                self._bind(target.elts[i].value, vals[i:len(vals) - after], env)
+                for t, v in zip(target.elts[i + 1:], vals[len(vals) - after:]):
+                    self._bind(t, v, env)
+                return
             if len(vals) != len(target.elts):
                 raise Raises("ValueError", "unpack")
             for t, v in zip(target.elts, vals):
